@@ -122,6 +122,58 @@ def h_template_sections(ctx):
     ctx.require("section-written-by-init-config-is-the-one-the-linter-reads", not own, preset=preset, written_as=written, got=len(own))
 
 
+# documented switches (docs/<linter>-linter.md "Configuration Options"): (section, {key: value} or nested, file name, file text, rule id it must silence)
+_LAZY = "import os  # noqa\nimport sys  # type: ignore\nimport json  # pylint: disable=unused-import\nx = eval('1')  # nosec\ny = os.getcwd()  # thailint: ignore[magic-numbers]\n"
+SWITCHES = (
+    ("lazy-ignores", {"check_noqa": False}, "lazy_sw.py", _LAZY, "lazy-ignores", "noqa"),
+    ("lazy-ignores", {"check_type_ignore": False}, "lazy_sw.py", _LAZY, "lazy-ignores", "type: ignore"),
+    ("lazy-ignores", {"check_pylint_disable": False}, "lazy_sw.py", _LAZY, "lazy-ignores", "pylint: disable"),
+    ("lazy-ignores", {"check_nosec": False}, "lazy_sw.py", _LAZY, "lazy-ignores", "nosec"),
+    ("lazy-ignores", {"check_thailint_ignore": False}, "lazy_sw.py", _LAZY, "lazy-ignores", "thailint: ignore"),
+    ("performance", {"string-concat-loop": {"enabled": False}}, "concat.py", None, "performance.string-concat-loop", ""),
+    ("performance", {"regex-in-loop": {"enabled": False}}, "regexloop.py", None, "performance.regex-in-loop", ""),
+    ("performance", {"string_concat_loop": {"enabled": False}}, "concat.py", None, "performance.string-concat-loop", ""),
+)
+
+
+def h_switches(ctx):
+    """A documented on/off switch inside a linter section, set to false, removes exactly the findings it governs."""
+    from src.core.config_parser import _normalize_config_keys
+    from src.orchestrator.core import Orchestrator
+    import src.linter_config.ignore as ign
+    section, body, fname, text, rule_id, needle = ctx.pick("switch", SWITCHES)
+    spelled = section if ctx.pick("spelling", ("hyphen", "underscore")) == "hyphen" else section.replace("-", "_")
+    d = _proj()
+    f = d / "src" / fname
+    created = False
+    if text is not None and not f.exists():
+        f.write_text(text)
+        created = True
+    try:
+        def run(cfg):
+            ign.clear_ignore_parser_cache()
+            return [v for v in Orchestrator(project_root=d, config=_normalize_config_keys(cfg)).lint_files([f])]
+        base = run({})
+        got = run({spelled: body})
+    finally:
+        if created:
+            f.unlink()
+
+    def governed(v):
+        return v.rule_id.startswith(rule_id) and (not needle or ("found: # " + needle) in v.message)
+    gb = [v for v in base if governed(v)]
+    ctx.note("section", section)
+    ctx.note("switch", json.dumps(body))
+    ctx.require("switch-governs-something-by-default", len(gb) >= 1, section=section, switch=body, base=[(v.rule_id, v.line, v.message[:50]) for v in base][:6])
+    gg = [v for v in got if governed(v)]
+    ctx.cover("silenced" if not gg else "still-reported")
+    ctx.require("documented-switch-off-silences-what-it-governs", not gg, section=spelled, switch=body, still=[(v.rule_id, v.line, v.message[:60]) for v in gg][:3])
+    k = lambda v: (v.rule_id, v.line, v.message)
+    others_b = Counter(k(v) for v in base if not governed(v) and not v.rule_id.startswith("lazy-ignores"))
+    others_g = Counter(k(v) for v in got if not governed(v) and not v.rule_id.startswith("lazy-ignores"))
+    ctx.require("nothing-else-changes", others_b == others_g, section=spelled, switch=body)
+
+
 def h_enabled(ctx):
     from src.core.config_parser import _normalize_config_keys
     section, prefix, groups = ctx.pick("linter", LINTERS)
@@ -450,6 +502,10 @@ def obligations(tier):
            functions=["thailint init-config --preset P (generated .thailint.yaml)", "config_parser._normalize_config_keys", "every rule's _load_config / section lookup"],
            bounds="forked: 3 presets x %d linters x trigger files; the generated file with enabled: false in the linter's section as written by the template" % len(LINTERS),
            timeout=600, workers=14, must_cover=("silent",)),
+        Ob(name="K1s-documented-switches", engine="pathex", harness=h_switches,
+           functions=["LazyIgnoresRule.check/_load_config/check_content", "PerformanceConfig.from_dict/for_rule", "StringConcatLoopRule/RegexInLoopRule._load_config"],
+           bounds="forked: %d documented switches (lazy-ignores check_*, performance per-rule enabled) x {hyphen, underscore} section spelling" % len(SWITCHES),
+           timeout=300, workers=8, must_cover=("silenced",)),
         Ob(name="K2-threshold-monotone-and-validated", engine="pathex", harness=h_monotone,
            functions=["the threshold linters' Config.from_dict/__post_init__", "NestingDepthRule/SRPRule/MagicNumberRule/DRYRule/MethodPropertyRule/CQSRule/CollectionPipelineRule .check"],
            bounds="two thresholds a <= b in [-1, 9] (thorough: [-1, 16]) (symbolic where the code only compares, enumerated by forking where it needs a machine integer); 10 (section, key) pairs x 2 spellings",
